@@ -696,6 +696,56 @@ func genGcsMore(g *core.Gen) {
 			rec(g, "rd-q64", true, fmt.Sprintf("C20 rd %d %s %d", p, hexTok(d), 2+r.Intn(3)))
 		}
 	}
+	// --- every value of the one-byte discriminators
+	// first byte of an output script (OP_RETURN = 0x6a is the only excluded one), as 1-byte and 3-byte scripts
+	for _, tail := range []string{"", "0102"} {
+		txs := make([]string, 8)
+		for t := range txs {
+			outs := make([]string, 32)
+			for k := range outs {
+				outs[k] = fmt.Sprintf("%02x%s", t*32+k, tail)
+			}
+			txs[t] = strings.Join(outs, ",")
+		}
+		rec(g, "basic-firstbyte", true, fmt.Sprintf("C20 basic %s %s %s %s", hex.EncodeToString(r.Bytes(80)),
+			strings.Join(txs, ";"), "6a,00,-,6a01", hex.EncodeToString(r.Bytes(32))))
+	}
+	// the excluded script at every position (first / middle / last output of first / middle / last tx, and
+	// first / middle / last prev script)
+	for pos := 0; pos < 9; pos++ {
+		for _, bad := range []string{"-", "6a", "6a04deadbeef"} {
+			var txs []string
+			for t := 0; t < 3; t++ {
+				outs := make([]string, 3)
+				for k := range outs {
+					outs[k] = hex.EncodeToString(r.Bytes(1 + r.Intn(20)))
+					if outs[k][:2] == "6a" {
+						outs[k] = "51" + outs[k][2:]
+					}
+					if t*3+k == pos {
+						outs[k] = bad
+					}
+				}
+				txs = append(txs, strings.Join(outs, ","))
+			}
+			prevs := []string{hex.EncodeToString(r.Bytes(5)), hex.EncodeToString(r.Bytes(6)), hex.EncodeToString(r.Bytes(7))}
+			prevs[pos%3] = "-"
+			rec(g, "basic-position", true, fmt.Sprintf("C20 basic %s %s %s %s", hex.EncodeToString(r.Bytes(80)),
+				strings.Join(txs, ";"), strings.Join(prevs, ","), hex.EncodeToString(r.Bytes(32))))
+		}
+	}
+	// first byte of the N prefix; P as a byte, through both constructors
+	for b := 0; b < 256; b++ {
+		rec(g, "fromn-firstbyte", true, fmt.Sprintf("C20 fromn 19 784931 %s %02x010000000000000000%s %s", keyTok(r), b,
+			hex.EncodeToString(r.Bytes(r.Intn(6))), itemsTok(randItems(r, 2, 5))))
+		m := uint64(1)
+		if b <= 32 {
+			m = uint64(1)<<uint(b) + 1
+		}
+		items := randItems(r, 1+r.Intn(3), 6)
+		rec(g, "p-sweep", b <= 32, fmt.Sprintf("C20 gcs %d %d %s %s %s", b, m, keyTok(r), itemsTok(items), itemsTok(append(randItems(r, 1, 4), items[0]))))
+		rec(g, "p-sweep", b <= 32, fmt.Sprintf("C20 from %d %d %s %d %s %s", b, m, keyTok(r), 1+r.Intn(3), hexTok(r.Bytes(1+r.Intn(12))), itemsTok(randItems(r, 2, 4))))
+	}
 	// --- N*M around 2^32 (small quotients need P near 32)
 	for i := 0; i < g.N(60, 3000); i++ {
 		n := 1 + r.Intn(60)
@@ -992,6 +1042,13 @@ func execBld(ctor, ops string) string {
 				ds := parseItems(p[1])
 				both(func(x *builder.GCSBuilder) { x.AddWitness(wire.TxWitness(ds)) })
 				entries = append(entries, ds...)
+			case "esn": // AddEntries(nil)
+				both(func(x *builder.GCSBuilder) { x.AddEntries(nil) })
+			case "wn": // AddWitness(nil)
+				both(func(x *builder.GCSBuilder) { x.AddWitness(nil) })
+			case "en": // AddEntry(nil): the empty entry
+				both(func(x *builder.GCSBuilder) { x.AddEntry(nil) })
+				entries = append(entries, []byte{})
 			case "ah":
 				h := hash32(p[1])
 				both(func(x *builder.GCSBuilder) { x.AddHash(h) })
@@ -1151,6 +1208,8 @@ func genBld(g *core.Gen) {
 				ops = append(ops, "ah:"+hex.EncodeToString(r.Bytes(32)))
 			case 10:
 				ops = append(ops, "key")
+			case 11:
+				ops = append(ops, []string{"esn", "wn", "en", "es:.", "w:.", "e:-"}[r.Intn(6)])
 			default:
 				ops = append(ops, "build")
 			}
